@@ -76,3 +76,25 @@ Theorem C16_case_example :
   /\ exists ts, raw_tokens (s2l "10 for i=1 to 1e3:print a1;&hff:next") = Ok ts /\ forallb (fun t => negb (verbatim t)) ts = true.
 Proof. exact case_example. Qed.
 Print Assumptions C16_case_example.
+
+(* ---- the model's spelling tables are the source's (Gen/SourceTables.v is regenerated from /repo/src by tools/tables.py on every
+   run; Proofs/SourceTables.v) ---- *)
+From Coq Require Import List.
+From BL Require Import Gen.SourceTables Proofs.SourceTables.
+
+Theorem C16_reserved_words_are_the_sources : keyword_table = map (fun p => (s2l (fst p), snd p)) src_keywords.
+Proof. exact keywords_are_the_sources. Qed.
+Print Assumptions C16_reserved_words_are_the_sources.
+
+Theorem C16_single_character_tokens_are_the_sources :
+  map (fun p => match_minutia (fst p)) src_minutia = map (fun p => Some (snd p)) src_minutia
+  /\ forall c, match_minutia c <> None -> In c (map fst src_minutia).
+Proof. exact (conj minutia_arms_are_the_sources minutia_has_no_other_arm). Qed.
+Print Assumptions C16_single_character_tokens_are_the_sources.
+
+Theorem C16_listed_spellings_are_the_sources :
+  (map (fun p => word_str (fst p)) src_word_display = map (fun p => s2l (snd p)) src_word_display /\ forall w, In w (map fst src_word_display))
+  /\ (map (fun p => op_str (fst p)) src_op_display = map (fun p => s2l (snd p)) src_op_display /\ forall o, In o (map fst src_op_display))
+  /\ (map (fun p => op_is_word (fst p)) src_op_is_word = map snd src_op_is_word /\ forall o, In o (map fst src_op_is_word)).
+Proof. exact (conj word_display_is_the_sources (conj operator_display_is_the_sources operator_words_are_the_sources)). Qed.
+Print Assumptions C16_listed_spellings_are_the_sources.
